@@ -84,9 +84,15 @@ def run(replay=None):
         ck.finish()
     quick = ck.tier == "quick"
     progs = []
+    from props.c15 import gen_manyvars
     for k in range(500 if quick else 20000):
-        p = exprlib.gen_program(ck.rng, f"g{k}", ck.rng.randint(4, 30), safe=False, ops_un=SMOOTH_UN, ops_bin=SMOOTH_BIN,
-                                var_p=0.12, remap_p=0.06, apply_p=0.03)
+        if k % 12 == 11:
+            # 4..9 free variables with position-dependent partials: the Jacobian evaluator packs three variables
+            # per array slot, so the 4th, 5th, ... partials come from slots 1, 2, ...
+            p = gen_manyvars(ck.rng, f"g{k}")
+        else:
+            p = exprlib.gen_program(ck.rng, f"g{k}", ck.rng.randint(4, 30), safe=False, ops_un=SMOOTH_UN, ops_bin=SMOOTH_BIN,
+                                    var_p=0.12, remap_p=0.06, apply_p=0.03)
         p.q = []
         for _ in range(4):
             pt = [ck.rng.uniform(-1.5, 1.5) for _ in range(3)]
